@@ -9,4 +9,8 @@ open Sth.Generated
 /-- C17: the background loops close their done channels -/
 theorem C17_done_channels : runClosesClosed = true ∧ igcClosesDone = true ∧ pgcClosesDone = true := by decide
 
+/-- C17: the shutdown handshakes live in locals of the loop functions (`gcDone`, the timer): no branch declares one of them again
+    with `:=` (which would leave the variable the stop arm waits on untouched) -/
+theorem C17_handshake_locals_not_shadowed : lifecycleShadowedLocals = [] := by decide
+
 end Sth.Obligations
